@@ -96,6 +96,14 @@ OnlyWholeWords ==
             Len(SelectSeq(outs[Len(outs)], LAMBDA t : t = n)) >= Len(SelectSeq(hist[Len(hist)].r, LAMBDA t : t = n))
 CycleRejected ==
     (LastUse /\ status = "run") => NormalForm(hist[Len(hist)].r, defs, TRUE, 60) # Cyc
+\* expansion works token by token: a line that repeats its tokens expands to the repeated expansion, however many times a
+\* symbol occurs on it (the harness replays every use line also repeated nine times, licensed by this)
+ExpansionIsTokenwise ==
+    (LastUse /\ status = "run") =>
+        LET toks == hist[Len(hist)].r
+            e == outs[Len(outs)]
+        IN  /\ Expand(toks \o <<"+">> \o toks, defs, {}) = e \o <<"+">> \o e
+            /\ \A i \in 1..Len(toks) : Expand(SubSeq(toks, 1, i), defs, {}) \o Expand(SubSeq(toks, i + 1, Len(toks)), defs, {}) = e
 RedefinitionRejected ==
     \A i, j \in 1..Len(defs) : i # j => defs[i].n # defs[j].n
 
